@@ -1,5 +1,5 @@
 """Property table: what each check runs in each tier."""
-from vlib import drive_and_validate, run_model, NCPU
+from vlib import drive_and_validate, run_model, generate_histories, replay_histories, NCPU
 
 
 def sz(ctx, quick, thorough):
@@ -39,6 +39,28 @@ def run_C16(ctx):
     drive_and_validate(ctx, [{"driver": "C16", "n": sz(ctx, 1600, 60000)}])
 
 
+def run_C19(ctx):
+    drive_and_validate(ctx, [{"driver": "C19", "n": sz(ctx, 1600, 60000), "probes": 32},
+                             {"driver": "C19L", "n": 32 if ctx.tier == "quick" else 640, "probes": 12}])
+
+
+def run_C17(ctx):
+    drive_and_validate(ctx, [{"driver": "C17", "n": sz(ctx, 1600, 60000), "probes": 32}])
+
+
+def run_C12(ctx):
+    maxlen = 4 if ctx.tier == "quick" else 5
+    cfg = "INIT LInit\nNEXT LNext\nCONSTANT MaxLen = %d\nINVARIANT PathsFromHistory\nINVARIANT Emit\nCHECK_DEADLOCK FALSE\n" % maxlen
+    hist, n = generate_histories(ctx, "Lifecycle", cfg)
+    ctx.exhaustive = True
+    ctx.notes.append("all %d histories of length <= %d over the Lifecycle alphabet replayed" % (n, maxlen))
+    replay_histories(ctx, hist, "replay-life")
+    # input immutability: every driver's workload with the ARGS clause enforced
+    k = sz(ctx, 800, 20000)
+    drive_and_validate(ctx, [{"driver": "ARGS:" + d, "n": k, "probes": 4} for d in
+                             ("C01", "C06", "C11", "C14", "C15", "C16", "C19")])
+
+
 PROPS = {
     "C01": {"run": run_C01,
             "rule": "seeded generators (9 families) x 4 clip types x 4 fill rules x 4 entry points; an event is non-trivial "
@@ -58,6 +80,18 @@ PROPS = {
     "C16": {"run": run_C16,
             "rule": "paths of 0..9 points at 5 magnitudes x 8 epsilons x closed/open x 4 entry points, each re-run translated "
                     "and scaled by a power of two; non-trivial: something removed and > 2 vertices left"},
+    "C19": {"run": run_C19,
+            "rule": "the four clip types + both differences + UnionPaths64 of each set on one input; small families as C01 and "
+                    "large sets (120..520 polygons, thousands of vertices); non-trivial: intersection and difference non-empty"},
+    "C17": {"run": run_C17,
+            "rule": "base input + 5 re-spellings out of {path permutation, start rotation, closing vertex repeated, vertex "
+                    "repeated, one path reversed (EvenOdd), all reversed (NonZero), all reversed with Positive<->Negative, "
+                    "subject<->clip, 7 lattice symmetries}; non-trivial: base region has inside and outside probes"},
+    "C12": {"run": run_C12,
+            "rule": "every history (length <= 4 quick / 5 thorough) of 5 AddPaths and 5 Execute/ExecuteOC/ExecutePolyTree "
+                    "operations on a clipper64, a clipperD and a ClipperOffset, enumerated by TLC from Lifecycle.tla and "
+                    "replayed; non-trivial: executions preceded by an earlier execution on the same object; plus every "
+                    "driver's calls with arguments compared before/after"},
     "C02": {"run": run_C02,
             "rule": "as C01 with preserve-collinear / reverse-solution toggled; non-trivial as C01"},
 }
